@@ -343,6 +343,48 @@ def gen_cond_src(rng, arity):
     return out
 
 
+def cond_grid_contents():
+    """Seed-independent: one small model (variable x, parameter p, one reaction r(x, p) with dx/dt = -r, one derived
+    value) per representative control-flow body and per parameter value in {-1, 0, 1}; to be evaluated at every
+    x in {-2, …, 2}: every comparison operator with the threshold in reach, a sign guard, elif chains with and
+    without final else, nested / chained conditions, a magnitude, a local import shadowing a module-level name"""
+    bodies = []
+    for op in ("<", "<=", ">", ">=", "==", "!="):
+        bodies.append([f"if a0 {op} a1:", "    return (a0 + 1.0)", "else:", "    return (a0 - 2.0)"])
+        bodies.append([f"return (a0 * 2.0) if a0 {op} 0.0 else (a1 - a0)"])
+    bodies += [
+        ["if a0 < 0.0:", "    return 0.0", "return (a0 * a1)"],
+        ["if a0 >= 0.0:", "    return (a0 + a1)", "return (0.0 - a0)"],
+        ["if a0 < a1:", "    return (a0 - a1)", "elif a0 <= 1.0:", "    return (a0 * 2.0)", "return (a1 + 3.0)"],
+        ["if a0 < -1.0:", "    return 1.0", "elif a0 < 0.0:", "    return 2.0", "elif a0 == 0.0:", "    return 3.0",
+         "else:", "    return (a0 + a1)"],
+        ["return 1.0 if a0 < a1 else (2.0 if a0 == a1 else 3.0)"],
+        ["if -1.0 <= a0 < 1.0:", "    return (a0 + a1)", "else:", "    return (a0 * a1)"],
+        ["return (a0 ** 2.0) ** 0.5 + a1"],
+        ["return ((a0 - a1) ** 2.0) ** 0.5"],
+    ]
+    out = []
+    for bi, body in enumerate(bodies):
+        for pv in ("-1", "0", "1"):
+            src = {"body": body, "module_level": [], "helper_modules": [], "shape": f"grid{bi}"}
+            out.append(_grid_content(src, pv, f"g{bi}"))
+    for pv in ("-1", "0", "1"):
+        hm = f"mxlverif_helper_grid{pv.replace('-', 'm')}"
+        src = {"body": [f"from {hm} import helper", "", "return helper(a0, a1) + a0"],
+               "module_level": ["", "", "def helper(u, v):", "    return u - v"],
+               "helper_modules": [[hm, "def helper(u, v):\n    return u * v + 1.0\n"]], "shape": "grid-local-import"}
+        out.append(_grid_content(src, pv, "gimp"))
+    return out
+
+
+def _grid_content(src, pv, name):
+    fn = {"args": ["x", "p"], "e": ["a", 0], "rich": True, "name": name, "src": {"e": src, "floats": []}}
+    der = {"args": ["p", "x"], "e": ["a", 0], "rich": True, "name": name + "d",
+           "src": {"e": dict(src, shape=src["shape"] + "-swapped"), "floats": []}}
+    return {"vars": [["x", {"v": "1"}]], "pars": [["p", {"v": pv}]], "derived": [["d", der]],
+            "rxns": [["r", dict(fn, st=[["x", {"c": "-1"}]])]]}
+
+
 def eval_rich(e, xs, guard=True):
     """exact value of an expression of the wider fragment (Python semantics of % on rationals); with `guard`
     every intermediate value must be a small dyadic, i.e. double arithmetic is exact at this point"""
